@@ -486,14 +486,14 @@ Verdict run_case(Case const& c, Ctx& ctx)
 		{
 			ConnSpec* s = spec_of(specs, r.a[0]); if (!s || s->present) continue;
 			s->present = true; s->cnode = int(((r.a[1] % nn) + nn) % nn); s->snode = int(((r.a[2] % nn) + nn) % nn);
-			if (s->snode == s->cnode) s->snode = (s->cnode + 1) % nn;
+			if (s->snode == s->cnode && prop != "C19") s->snode = (s->cnode + 1) % nn; // (only the capture cases connect within one node)
 			s->akind = int(((r.a[3] % 3) + 3) % 3);
 		}
 		else if (r.name == "gen" && r.a.size() >= 6)
 		{
 			ConnSpec* s = spec_of(specs, r.a[0]); if (!s || !s->present || s->gens.size() >= 3) continue;
 			GenSpec g; g.concurrent = r.a[1] != 0; g.closer = r.a[2] ? 1 : 0; g.early = r.a[3] != 0; g.hold = r.a[4] != 0;
-			g.snode = int(((r.a[5] % nn) + nn) % nn); if (g.snode == s->cnode) g.snode = s->snode;
+			g.snode = int(((r.a[5] % nn) + nn) % nn); if (g.snode == s->cnode && prop != "C19") g.snode = s->snode;
 			if (!s->gens.empty() && s->gens.back().hold) continue; // a held generation is the last one
 			s->gens.push_back(g);
 		}
@@ -801,6 +801,7 @@ Verdict run_case(Case const& c, Ctx& ctx)
 	}
 	else if (prop == "C19")
 	{
+		for (auto const& pr : pairs_copy) if (pr.a.address() == pr.b.address()) ctx.label("pcap_connection_within_one_node");
 		if (pcap_retx) ctx.label("pcap_retransmission"); if (pcap_retx_nat) ctx.label("pcap_retransmission_behind_nat"); if (pcap_udp) ctx.label("pcap_udp"); if (pcap_tcp_pairs_bidir >= 2) ctx.label("pcap_two_bidirectional_connections");
 		if (crosses_second) ctx.label("pcap_crosses_second"); if (R.eof_seen) ctx.label("pcap_closing_segment");
 		for (auto const& u : usends) if (!u.on_wire) { ctx.label("udp_not_on_wire"); break; }
@@ -964,13 +965,15 @@ rc::Gen<Case> gen_c19()
 			for (std::size_t i = 0; i < f1.size() && i < 10; ++i) c.recs.push_back(mk("fault", {1, 0, f1[i], 30000}));
 			for (int k = 0; k < 2; ++k)
 			{
-				c.recs.push_back(mk("conn", {k, k, 1 - k, (std::get<5>(t) + k) % 3}));
-				c.recs.push_back(mk("gen", {k, 1, (std::get<6>(t) + k) % 2, 0, 0, 1 - k}));
+				// now and then the second connection stays on one node: both ends share an address and differ only in their ports
+				bool const same_node = k == 1 && (std::get<6>(t) == 4 || std::get<6>(t) == 8);
+				c.recs.push_back(mk("conn", {k, k, same_node ? k : 1 - k, (std::get<5>(t) + k) % 3}));
+				c.recs.push_back(mk("gen", {k, 1, (std::get<6>(t) + k) % 2, 0, 0, same_node ? k : 1 - k}));
 				c.recs.push_back(mk("xfer", {k, 0, 4000 + 997 * k, 3, 1, 3, 1, 0}));
 				c.recs.push_back(mk("xfer", {k, 1, 3000, 5, 2, 4, 2, 0}));
 				auto& xs = k == 0 ? std::get<7>(t) : std::get<8>(t);
 				for (std::size_t i = 0; i < xs.size() && i < 2; ++i) c.recs.push_back(xs[i]);
-				if (std::get<6>(t) >= 5) { c.recs.push_back(mk("gen", {k, 0, 0, 0, 0, 1 - k})); c.recs.push_back(mk("xfer", {k, 0, 2000, 3, 1, 3, 1, 0})); }
+				if (std::get<6>(t) >= 5) { c.recs.push_back(mk("gen", {k, 0, 0, 0, 0, same_node ? k : 1 - k})); c.recs.push_back(mk("xfer", {k, 0, 2000, 3, 1, 3, 1, 0})); }
 			}
 			c.recs.push_back(mk("udp", {10, 0, 1, 100, 0}));
 			c.recs.push_back(mk("udp", {20, 0, 2, 100, 0})); // to nobody: must not be recorded
